@@ -62,13 +62,17 @@ func DeclareView(ctx context.Context, scope *ReferenceScope, expr parser.ViewDec
 	var view *View
 	var err error
 
+	// The fields are referred to by the name every later statement derives from the FileInfo
+	// (RestoreHeaderReferences, AddColumns) and ParseTableName derives from the identifier.
+	fileInfo := NewTemporaryTableFileInfo(expr.View.Literal)
+
 	if expr.Query != nil {
 		view, err = Select(ctx, scope, expr.Query.(parser.SelectQuery))
 		if err != nil {
 			return err
 		}
 
-		if err := view.Header.Update(expr.View.Literal, expr.Fields); err != nil {
+		if err := view.Header.Update(FormatTableName(fileInfo.Path), expr.Fields); err != nil {
 			if _, ok := err.(*FieldLengthNotMatchError); ok {
 				return NewTemporaryTableFieldLengthError(expr.Query.(parser.SelectQuery), expr.View, len(expr.Fields))
 			}
@@ -86,13 +90,13 @@ func DeclareView(ctx context.Context, scope *ReferenceScope, expr parser.ViewDec
 			fields[i] = lit
 			fieldsMap[ulit] = true
 		}
-		header := NewHeader(expr.View.Literal, fields)
+		header := NewHeader(FormatTableName(fileInfo.Path), fields)
 		view = NewView()
 		view.Header = header
 		view.RecordSet = RecordSet{}
 	}
 
-	view.FileInfo = NewTemporaryTableFileInfo(expr.View.Literal)
+	view.FileInfo = fileInfo
 	view.CreateRestorePoint()
 
 	scope.SetTemporaryTable(view)
